@@ -62,7 +62,7 @@ def main():
     pending = [p for p in sorted(CLAIMED) if p not in built]
     m = {
         "version": 1,
-        "setup_cmd": f"{PY} -c \"import numpy, scipy, pandas, jsonschema; import sys; sys.path.insert(0, '/verif'); import simkit\"",
+        "setup_cmd": f"{PY} -c \"import numpy, scipy, pandas, jsonschema; import sys; sys.path.insert(0, '/verif'); import simkit\" && {PY} check.py self-check",
         "hooks": {
             "guard": "SCORE_ANALYSIS_VERIF",
             "enable": "no source hooks were needed: every seam (numpy.random module attributes, sampler/metric callables, rng= argument, sys.settrace) already exists; check.py sets SCORE_ANALYSIS_VERIF=1 for form",
